@@ -116,7 +116,34 @@ func (g *gen) text() string {
 	if strings.HasSuffix(s, "{") || strings.HasSuffix(s, "#") {
 		s += " "
 	}
+	if g.ext == ".html" && !g.shifting && g.r.Intn(10) == 0 {
+		// CDATA sections: their content is literal, also when it looks like
+		// template syntax; several sections and literal "]]>" in one text run
+		s += g.cdata()
+	}
 	return s
+}
+
+// cdata returns one or two CDATA sections, possibly preceded by a literal "]]>".
+func (g *gen) cdata() string {
+	section := func() string {
+		var b strings.Builder
+		b.WriteString("<![CDATA[")
+		for i, n := 0, g.r.Intn(5); i < n; i++ {
+			b.WriteString(g.pick("{{ 2 }}", "{{ x", "{# c #}", "{% if x %}", "{% end %}", "#}", "]]", "]>", " ", "\n", "a", "{%% _ = 1 %%}", "<b>", "{{ 7000001 }}"))
+		}
+		b.WriteString("]]>")
+		return b.String()
+	}
+	switch g.r.Intn(4) {
+	case 0:
+		return section()
+	case 1:
+		return "]]>" + g.pick("", " ", "x\n") + section()
+	case 2:
+		return section() + g.pick("", " ", "lorem ", "\n") + section()
+	}
+	return section() + "]]> ]>" + section() + section()
 }
 
 func (g *gen) commentBody(depth int) string {
@@ -247,6 +274,11 @@ func (g *gen) raw() string {
 		if g.r.Intn(3) > 0 {
 			b.WriteString(g.eol())
 		}
+	}
+	if trail == "" && g.r.Intn(3) == 0 {
+		// the content ends with something that looks like the start of a
+		// statement, directly before the real end
+		b.WriteString(g.pick("{%", "{% ", "{%{%", "{% e", "{%  ", "{", "{%e", "{% en", "{%{", "{% {%", "{%\n"))
 	}
 	return open + lead + b.String() + trail + cl
 }
